@@ -201,6 +201,44 @@ GCRel(pre, c, post, g) ==
   /\ post.vbu = pre.vbu /\ post.ebu = pre.ebu /\ post.fbu = pre.fbu /\ post.fast = pre.fast
   /\ post.deferred = (IF c.op = "enable_deferred" THEN c.f ELSE pre.deferred)
 
+(* StatusAttrib::garbage_collection: the marked entities' closure is gone; *)
+(* with the manifoldness option additionally exactly the faces, edges and  *)
+(* vertices that then bound no cell; tracked handles designate the same    *)
+(* entity afterwards or are invalid                                        *)
+StatusKeep(pre, marks, manifold) ==
+  LET d  == ClosureOf(pre, marks.V \cap LiveV(pre), marks.E \cap LiveE(pre), marks.F \cap LiveF(pre), marks.C \cap LiveC(pre))
+      C1 == LiveC(pre) \ d.C
+      F1 == LiveF(pre) \ d.F
+      E1 == LiveE(pre) \ d.E
+      V1 == LiveV(pre) \ d.V
+      F2 == {f \in F1 : \E c \in C1 : \E hf \in Rng(At(pre.cells, c)) : Full(hf) = f}
+      E2 == {e \in E1 : \E f \in F2 : \E he \in Rng(At(pre.faces, f)) : Full(he) = e}
+      V2 == {v \in V1 : \E e \in E2 : At(pre.edges, e)[1] = v \/ At(pre.edges, e)[2] = v}
+  IN IF manifold THEN [V |-> V2, E |-> E2, F |-> F2, C |-> C1] ELSE [V |-> V1, E |-> E1, F |-> F1, C |-> C1]
+
+(* expected value of a tracked handle h of a full kind with map gk         *)
+Tracked(gk, keepK, h) ==
+  IF h \notin keepK THEN -1
+  ELSE LET js == {j \in 1 .. Len(gk) : gk[j] = h} IN IF js = {} THEN -2 ELSE (CHOOSE j \in js : TRUE) - 1
+TrackedHalf(gk, keepK, h) ==
+  LET r == Tracked(gk, keepK, Full(h)) IN IF r < 0 THEN r ELSE Half(r, Side(h))
+
+StatusGCRel(pre, c, post, g, rl) ==
+  LET marks == MarksOf(c.l)
+      keep == StatusKeep(pre, marks, c.f)
+      nv == pre.nv  ne == Len(pre.edges)  nf == Len(pre.faces)  nc == Len(pre.cells)
+  IN /\ IsoOn(pre, post, g, keep)
+     /\ post.ndv = 0 /\ post.nde = 0 /\ post.ndf = 0 /\ post.ndc = 0 /\ CountersConsistent(post)
+     /\ post.deferred = pre.deferred /\ post.fast = pre.fast
+     /\ c.f => post.vbu /\ post.ebu /\ post.fbu
+     /\ ~c.f => post.vbu = pre.vbu /\ post.ebu = pre.ebu /\ post.fbu = pre.fbu
+     /\ c.a = 1 =>    \* all handles were handed in for tracking
+           /\ Len(rl) = nv + 2 * ne + 2 * nf + nc
+           /\ \A h \in 0 .. (nv - 1) : rl[1 + h] = Tracked(g.V, keep.V, h)
+           /\ \A h \in 0 .. (2 * ne - 1) : rl[1 + nv + h] = TrackedHalf(g.E, keep.E, h)
+           /\ \A h \in 0 .. (2 * nf - 1) : rl[1 + nv + 2 * ne + h] = TrackedHalf(g.F, keep.F, h)
+           /\ \A h \in 0 .. (nc - 1) : rl[1 + nv + 2 * ne + 2 * nf + h] = Tracked(g.C, keep.C, h)
+
 (* ------------------- C17: index swaps are relabelings ------------------ *)
 IsSwap(c) == c.op \in {"swap_vertices", "swap_edges", "swap_faces", "swap_cells"}
 SwapMap(pre, c) ==
@@ -272,6 +310,25 @@ AddRel(pre, c, post, ret) ==
          IF c.f /\ ~ClosedSurface(pre, c.l)
          THEN ret = -1 /\ Unchanged(pre, post)
          ELSE ret = Len(pre.cells) /\ AppendRel(pre, post, "C", c.l)
+    [] c.op = "add_face_v" ->
+         (* C08/C11: a face built from a vertex list is a closed loop through exactly those   *)
+         (* vertices; existing live edges are reused, missing ones created exactly once       *)
+         LET n == Len(c.l)
+             pairs == {<<c.l[i], c.l[(i % n) + 1]>> : i \in 1 .. n}
+             missing == {{p[1], p[2]} : p \in {q \in pairs : LiveEdgesBetween(pre, q[1], q[2]) = {}}}
+         IN /\ ret = Len(pre.faces)
+            /\ Len(post.faces) = Len(pre.faces) + 1 /\ post.fdel = Append(pre.fdel, FALSE)
+            /\ Len(post.edges) = Len(pre.edges) + Cardinality(missing)
+            /\ post.edel = pre.edel \o Rep(Cardinality(missing), FALSE)
+            /\ \A e \in Hs(pre.edges) : At(post.edges, e) = At(pre.edges, e)
+            /\ \A f \in LiveF(pre) : At(post.faces, f) = At(pre.faces, f)
+            /\ post.cells = pre.cells /\ post.cdel = pre.cdel /\ post.nv = pre.nv /\ post.vdel = pre.vdel
+            /\ SameModes(pre, post)
+            /\ LET nf == post.faces[Len(post.faces)] IN
+                  /\ Len(nf) = n
+                  /\ \A h \in Rng(nf) : h \in LiveHE(post)
+                  /\ ClosedLoop(post, nf)
+                  /\ MapSeq(LAMBDA h : From(post, h), nf) = c.l
     [] OTHER -> TRUE
 
 (* ------------------- C03: property values follow ----------------------- *)
@@ -342,7 +399,8 @@ StepRel(pre, c, post, ret, g) ==
   CASE IsDelete(c)    -> DeleteRel(pre, c, post, g)
     [] IsGC(pre, c)   -> GCRel(pre, c, post, g)
     [] IsSwap(c)      -> SwapRel(pre, c, post)
-    [] c.op \in {"add_vertex", "add_edge", "add_face", "add_cell"} -> AddRel(pre, c, post, ret)
+    [] c.op = "status_gc" -> StatusGCRel(pre, [c EXCEPT !.a = 0], post, g, <<>>)
+    [] c.op \in {"add_vertex", "add_edge", "add_face", "add_cell", "add_face_v"} -> AddRel(pre, c, post, ret)
     [] c.op = "add_n_vertices" ->
          /\ post.nv = pre.nv + c.a /\ post.vdel = pre.vdel \o Rep(c.a, FALSE)
          /\ post.edges = pre.edges /\ post.faces = pre.faces /\ post.cells = pre.cells
